@@ -347,11 +347,11 @@ func (m *{{ .Name }}) Delete(k {{ .KeyType }}) {
 }
 
 func (m *{{ .Name }}) delete(k {{ .KeyType }}) {
-var kk {{ .KeyType }}
 	i := -1
 
-	for i, kk = range m.order {
+	for j, kk := range m.order {
 		if kk == k {
+			i = j
 			break
 		}
 	}
